@@ -14,11 +14,15 @@ call, the masks by direct comparison with fmin/fmax, the in-band values by
 the checker's own cubic spline in log-frequency, and the time-domain result
 by a direct ``empymod.model.tem`` call on the filled spectrum.
 """
+import contextlib
+import copy
+import io
+import pickle
 import warnings
 
 import numpy as np
 from hypothesis import strategies as st
-from scipy.interpolate import InterpolatedUnivariateSpline
+from scipy.interpolate import InterpolatedUnivariateSpline, PchipInterpolator
 
 from vp import gen
 from vp.framework import Inconclusive, Violation
@@ -69,8 +73,40 @@ FILTERS = ['key_81_2009', 'key_241_2009', 'key_601_2009', 'key_101_2012',
 SIG_SAME_SIZE = ("interpolate_passthrough_chosen_by_size:"
                  "input_freq_same_size_other_values")
 SIG_SIGNAL_SETTER = "freq2time_mismatch:signal_setter_without_recheck"
+SIG_COARSE = "setters:coarse_inputs_not_mutually_exclusive"
 # largest observed (error / tolerance) per numerical comparison, for evidence
 MARGIN = {}
+
+# Generator dimensions added after the blind-spot audit.  Each can be switched
+# off here (the drawn spec keys are then ignored, i.e. the old behaviour).
+ENABLE_FFT = True          # ft='fft' (linear or log-spaced required freq.)
+ENABLE_FT_CASE = True      # 'DLF' / 'FFTLog' spellings of ft
+ENABLE_TIME_RANGES = True  # times of 1e-6..1e-3 s and 1e2..1e4 s
+ENABLE_FDATA_AS = True     # complex64 / real / strided / read-only fdata
+ENABLE_PRE_CALL = True     # another spectrum through the object first
+ENABLE_PROVENANCE = True   # deep copy / pickle round trip before the oracle
+ENABLE_BOTH_COARSE = True  # constructor given input_freq AND every_x_freq
+ENABLE_OFF_AS = True       # offset as int / float32 / 1-element array, list
+ENABLE_DOC_PCHIP = True    # oracle: the documented PCHIP below fmin
+
+FT_MODES = (['lagged']*4 + ['splined']*4 + ['fftlog']*6 + ['standard']*2 +
+            ['default']*2 + (['fft']*2 if ENABLE_FFT else []))
+FT_CASES = ['lower']*5 + (['upper', 'mixed'] if ENABLE_FT_CASE else [])
+FT_SPELL = {'upper': {'dlf': 'DLF', 'fftlog': 'FFTLOG', 'fft': 'FFT'},
+            'mixed': {'dlf': 'Dlf', 'fftlog': 'FFTLog', 'fft': 'Fft'}}
+FDATA_AS = ['c128']*4 + (['strided', 'strided', 'readonly', 'c64', 'f64_real']
+                         if ENABLE_FDATA_AS else [])
+PRE_CALL = ['none']*2 + (['interpolate', 'interpolate', 'freq2time']
+                         if ENABLE_PRE_CALL else [])
+OFF_AS = ['float']*4 + (['int', 'f32', 'arr1', 'list1'] if ENABLE_OFF_AS
+                        else [])
+PROVENANCE = ['fresh']*4 + (['deepcopy', 'pickle'] if ENABLE_PROVENANCE
+                            else [])
+TIME_RANGES = ['std']*6 + (['tem', 'long'] if ENABLE_TIME_RANGES else [])
+PROPS = ['freq_required', 'freq_coarse', 'ifreq_compute', 'freq_compute',
+         'ifreq_extrapolate', 'freq_extrapolate', 'ifreq_interpolate',
+         'freq_interpolate', 'ft', 'ftarg', 'time', 'fmin', 'fmax', 'signal',
+         'input_freq', 'every_x_freq']
 
 
 def _margin(key, ratio):
@@ -87,22 +123,36 @@ def _unit():
 @st.composite
 def time_spec(draw):
     n = draw(st.one_of(st.just(1), st.integers(2, 40), st.integers(2, 40)))
-    a = draw(st.floats(-3.0, 1.5))
-    b = a if n == 1 else a + draw(st.floats(0.05, 1.0))*(2.0 - a)
-    return {'n': n, 'a': a, 'b': b,
+    rg = draw(st.sampled_from(TIME_RANGES))
+    if rg == 'tem':                     # land-TEM scale, 1e-6..1e-3 s
+        a, cap = draw(st.floats(-6.0, -4.0)), -3.0
+    elif rg == 'long':                  # 1e2..1e4 s
+        a, cap = draw(st.floats(2.0, 3.5)), 4.0
+    else:
+        a, cap = draw(st.floats(-3.0, 1.5)), 2.0
+    b = a if n == 1 else a + draw(st.floats(0.05, 1.0))*(cap - a)
+    return {'n': n, 'a': a, 'b': b, 'range': rg,
             'kind': draw(st.sampled_from(['log', 'irregular'])),
             'seed': draw(gen.SEED)}
 
 
 @st.composite
 def ft_spec(draw, tspec):
-    mode = draw(st.sampled_from(['lagged', 'lagged', 'splined', 'splined',
-                                 'fftlog', 'fftlog', 'fftlog', 'standard',
-                                 'default']))
+    mode = draw(st.sampled_from(FT_MODES))
     if mode == 'standard' and tspec['n'] > 1:
         mode = 'lagged'
+    case = draw(st.sampled_from(FT_CASES))
     if mode == 'default':
-        return {'mode': mode, 'ft': 'dlf', 'pass_ft': draw(st.booleans())}
+        return {'mode': mode, 'ft': 'dlf', 'pass_ft': draw(st.booleans()),
+                'case': case}
+    if mode == 'fft':
+        # required frequencies k*dfreq (k=1..nfreq), or log-spaced between
+        # dfreq and nfreq*dfreq if pts_per_dec is given (empymod check_time)
+        var = draw(st.sampled_from(['empty', 'ppd', 'dfreq_nfreq']))
+        return {'mode': mode, 'ft': 'fft', 'var': var, 'case': case,
+                'ppd': draw(st.integers(3, 10)),
+                'lgdfreq': draw(st.floats(-4.0, -1.0)),
+                'nfreq': draw(st.sampled_from([64, 100, 256, 500, 1024]))}
     if mode == 'fftlog':
         left = draw(st.floats(-3.0, 0.0))
         right = draw(st.floats(0.0, 2.0))
@@ -116,9 +166,9 @@ def ft_spec(draw, tspec):
         dec = max(1, int(total - 0.01))
         ppd = max(draw(st.integers(1, 20)), -(-8//dec))
         q = draw(st.one_of(st.just(0.0), st.floats(-1.0, 1.0)))
-        return {'mode': mode, 'ft': 'fftlog', 'ppd': ppd,
+        return {'mode': mode, 'ft': 'fftlog', 'ppd': ppd, 'case': case,
                 'add_dec': [left, right], 'q': q, 'partial': partial}
-    out = {'mode': mode, 'ft': 'dlf',
+    out = {'mode': mode, 'ft': 'dlf', 'case': case,
            'filter': draw(st.sampled_from(FILTERS)),
            'as_object': draw(st.booleans()),
            'kind': draw(st.sampled_from([None, None, None, 'sin', 'cos']))}
@@ -137,15 +187,21 @@ def coarse_spec():
             'subset', 'subset', 'subset', 'subset_random', 'subset_random',
             'logspace', 'logspace', 'logspace', 'logspace', 'irregular',
             'irregular', 'irregular', 'equal_required', 'equal_required',
-            'same_len_logspace', 'same_len_scaled', 'same_len_jitter']),
+            'same_len_logspace', 'same_len_scaled', 'same_len_jitter',
+            'mixed', 'mixed', 'mixed', 'equal_but_one', 'equal_but_one',
+            'near_equal']),
         'n': st.integers(6, 80), 'u0': _unit(), 'u1': _unit(),
         'step': st.integers(2, 6), 'off': st.integers(0, 5),
         'p': st.floats(0.2, 0.9), 'shift': st.floats(-0.3, 0.3),
+        'lgeps': st.floats(-12.0, -3.0), 'uj': _unit(),
         'seed': gen.SEED})
     return st.fixed_dictionaries({
         'mode': st.sampled_from(['none', 'every', 'every', 'input', 'input',
-                                 'input']),
-        'every': st.integers(1, 5), 'inp': inp})
+                                 'input', 'input'] +
+                                (['both'] if ENABLE_BOTH_COARSE else [])),
+        'every': st.one_of(st.integers(1, 5), st.integers(1, 5),
+                           st.integers(6, 80)),
+        'inp': inp})
 
 
 EDGE = st.sampled_from(['on_coarse', 'on_required', 'between'])
@@ -156,14 +212,21 @@ def band_spec():
         'uk': _unit(), 'ui': _unit(), 'lo': EDGE, 'hi': EDGE,
         'pos': st.sampled_from(['low', 'high', 'mid', 'mid', 'mid', 'mid',
                                 'mid', 'mid', 'mid', 'mid']),
-        'tlo': st.floats(0.05, 0.95), 'thi': st.floats(0.05, 0.95)})
+        'tlo': st.floats(0.05, 0.95), 'thi': st.floats(0.05, 0.95),
+        'cast': st.sampled_from(['float', 'float', 'np64'])})
 
 
 def spectrum_spec():
     return st.fixed_dictionaries({
         'kind': st.sampled_from(['analytic', 'analytic', 'random', 'random',
                                  'real']),
-        'lgamp': st.floats(-15.0, 2.0), 'seed': gen.SEED})
+        'lgamp': st.floats(-15.0, 2.0), 'seed': gen.SEED,
+        # how fdata is handed over, and whether ANOTHER spectrum goes through
+        # the same object first (interpolate or freq2time)
+        'as': st.sampled_from(FDATA_AS),
+        'pre': st.sampled_from(PRE_CALL),
+        'pre_kind': st.sampled_from(['analytic', 'random', 'real']),
+        'pre_lgamp': st.floats(-15.0, 2.0)})
 
 
 @st.composite
@@ -172,7 +235,11 @@ def config(draw):
     return {'time': t, 'signal': draw(st.sampled_from([-1, 0, 1])),
             'ft': draw(ft_spec(t)), 'coarse': draw(coarse_spec()),
             'band': draw(band_spec()), 'spectrum': draw(spectrum_spec()),
-            'off': draw(gen.lgfloat(1.0, 1e4))}
+            'off': draw(gen.lgfloat(1.0, 1e4)),
+            'off_as': draw(st.sampled_from(OFF_AS)),
+            'prov': draw(st.sampled_from(PROVENANCE)),
+            'verb': draw(st.sampled_from([0, 0, 0, 1, 2, 3, 3, 4])),
+            'repr': draw(st.booleans())}
 
 
 OPS = ['time', 'signal', 'ft', 'fmin', 'fmax', 'coarse']
@@ -186,12 +253,42 @@ def setter_spec(draw):
             'ft': draw(ft_spec(t0)),
             'fmin': draw(gen.lgfloat(1e-4, 1.0)),
             'fmax_fac': draw(gen.lgfloat(1.5, 1e4)),
-            'coarse': draw(st.sampled_from(['none', 'every', 'input'])),
+            'coarse': draw(st.sampled_from(
+                ['none', 'every', 'input'] +
+                (['both'] if ENABLE_BOTH_COARSE else []))),
             'every': draw(st.integers(1, 5)),
             'n_input': draw(st.integers(4, 40))}
-    ops = draw(st.permutations(OPS))[:draw(st.integers(1, 6))]
-    return {'final': final, 'init': init, 'ops': ops,
-            'verb': draw(st.sampled_from([0, 0, 1]))}
+    if draw(st.booleans()):
+        ops = draw(st.permutations(OPS))[:draw(st.integers(1, 6))]
+    else:       # with replacement: A->B->A, the same setter several times
+        ops = draw(st.lists(st.sampled_from(OPS), min_size=2, max_size=10))
+    # values for the occurrences of a setter that are not its last one (the
+    # last occurrence sets the final value)
+    mid = []
+    for i, op in enumerate(ops):
+        if op not in ops[i+1:]:
+            mid.append(None)
+        elif op == 'time':
+            mid.append({'time': draw(time_spec())})
+        elif op == 'signal':
+            mid.append({'signal': draw(st.sampled_from([-1, 0, 1]))})
+        elif op == 'ft':
+            mid.append({'ft': draw(ft_spec(final['time']))})
+        elif op in ('fmin', 'fmax'):
+            mid.append({'v': draw(gen.lgfloat(1e-6, 1e5))})
+        else:
+            mid.append({'coarse': draw(st.sampled_from(['none', 'none',
+                                                        'every', 'input'])),
+                        'every': draw(st.integers(1, 5)),
+                        'n_input': draw(st.integers(4, 40)),
+                        'which': draw(st.sampled_from(['set', 'other',
+                                                       'both']))})
+    touch = draw(st.lists(st.booleans(), min_size=len(ops) + 1,
+                          max_size=len(ops) + 1))
+    return {'final': final, 'init': init, 'ops': ops, 'mid': mid,
+            'touch': touch,
+            'none_which': draw(st.sampled_from(['set', 'set', 'both'])),
+            'verb': draw(st.sampled_from([0, 0, 1, 2, 3, 3, 4]))}
 
 
 # ------------------------------------------------------- realise a spec
@@ -213,8 +310,23 @@ def build_time(ts):
 def build_ft(fs):
     """-> (ft or None, ftarg or None) exactly as handed to emg3d."""
     import empymod
+    ft, ftarg = _build_ft(fs, empymod)
+    case = fs.get('case', 'lower') if ENABLE_FT_CASE else 'lower'
+    if ft is not None and case != 'lower':
+        ft = FT_SPELL[case][ft]
+    return ft, ftarg
+
+
+def _build_ft(fs, empymod):
     if fs['mode'] == 'default':
         return ('dlf' if fs['pass_ft'] else None), None
+    if fs['ft'] == 'fft':
+        if fs['var'] == 'empty':
+            return 'fft', {}
+        if fs['var'] == 'ppd':
+            return 'fft', {'pts_per_dec': int(fs['ppd'])}
+        return 'fft', {'dfreq': float(10.0**fs['lgdfreq']),
+                       'nfreq': int(fs['nfreq'])}
     if fs['ft'] == 'fftlog':
         if fs['partial'] == 'none':
             return 'fftlog', {}
@@ -262,6 +374,21 @@ def build_input_freq(cs, req):
     if kind == 'same_len_scaled':
         s = cs['shift'] if abs(cs['shift']) > 1e-3 else 0.01
         return req*10.0**s
+    if kind in ('equal_but_one', 'near_equal'):
+        # freq_required with one entry / all entries changed by a relative
+        # 1e-12..1e-3 (at most a tenth of the smallest relative spacing, so
+        # the vector stays strictly ascending)
+        eps = min(10.0**cs.get('lgeps', -6.0),
+                  0.1*float(np.min(np.diff(req)/req[1:])))
+        out = req.copy()
+        if kind == 'near_equal':
+            out *= 1.0 + eps*rng.uniform(-1.0, 1.0, R)
+        else:
+            j = min(int(cs.get('uj', 0.5)*R), R - 1)
+            out[j] *= 1.0 + eps*float(rng.choice([-1.0, 1.0]))
+        if np.array_equal(out, req) or np.any(np.diff(out) <= 0):
+            raise Inconclusive("perturbed copy of freq_required not usable")
+        return out
     if kind == 'same_len_jitter':
         lg = np.log10(req)
         d = np.diff(lg)
@@ -280,6 +407,19 @@ def build_input_freq(cs, req):
         hi = lo + 0.5
     if kind == 'logspace':
         return np.logspace(lo, hi, cs['n'])
+    if kind == 'mixed':
+        # some computed points ON required frequencies, others off them:
+        # a random subset of the required ones united with an own log-spaced
+        # vector, minus the own points closer than a quarter of the local
+        # spacing to a chosen required one (no nearly coincident knots)
+        k = min(R, max(3, int(0.5*cs['p']*R)))
+        sub = req[np.sort(rng.choice(R, size=k, replace=False))]
+        own = np.logspace(lo, hi, cs['n'])
+        ls, lo_ = np.log10(sub), np.log10(own)
+        i = np.clip(np.searchsorted(ls, lo_), 1, k - 1)
+        gap = ls[i] - ls[i-1]
+        dist = np.minimum(np.abs(lo_ - ls[i-1]), np.abs(lo_ - ls[i]))
+        return np.unique(np.r_[sub, own[dist > 0.25*gap]])
     # irregular: random positive gaps with ratio <= 100
     gaps = 10.0**rng.uniform(-2.0, 0.0, cs['n'] - 1)
     lg = lo + np.r_[0.0, np.cumsum(gaps)]/gaps.sum()*(hi - lo)
@@ -295,6 +435,14 @@ def build_coarse(cs, req):
         return 'every', ev, None, req[::ev], f'every={ev}'
     inp = build_input_freq(cs['inp'], req)
     return 'input', None, inp, inp, 'input:' + cs['inp']['kind']
+
+
+def ctor_every(cs, req):
+    """every_x_freq handed to the constructor TOGETHER with input_freq (mode
+    'both'; documented outcome: input_freq is kept, every_x_freq reset)."""
+    if cs['mode'] == 'both' and ENABLE_BOTH_COARSE:
+        return max(1, min(cs['every'], req.size//4))
+    return None
 
 
 def build_band(bs, coarse, req, kmin):
@@ -392,7 +540,12 @@ def realise(cfg):
     if coarse.size < kmin:
         raise Inconclusive("coarse vector too short for a cubic spline")
     fmin, fmax, lo_mode, hi_mode = build_band(cfg['band'], coarse, req, kmin)
-    return {'time': time, 'signal': signal, 'ft': ft, 'ftarg': ftarg,
+    if cfg['band'].get('cast', 'float') == 'np64':
+        fmin, fmax = np.float64(fmin), np.float64(fmax)
+    return {'ctor_every': ctor_every(cfg['coarse'], req),
+            'off_as': cfg.get('off_as', 'float') if ENABLE_OFF_AS else 'float',
+            'repr': cfg.get('repr', False),
+            'time': time, 'signal': signal, 'ft': ft, 'ftarg': ftarg,
             'req': req, 'cmode': cmode, 'every': every, 'inp': inp,
             'coarse': coarse, 'clabel': clabel, 'is_req': is_req,
             'fmin': fmin, 'fmax': fmax, 'lo_mode': lo_mode,
@@ -503,12 +656,33 @@ def _oracle(F, X, sspec, rec, allowed_signals=None, mismatch_sig=None):
                         f"freq_compute has {got_fc.size} entries, "
                         f"freq_coarse within the band has {fc.size}", det)
 
+    if X.get('repr'):
+        if not isinstance(repr(F), str):
+            raise Violation("repr_not_a_string", "", det)
+        rec.cls('repr=called')
+
     # ---- B. interpolate --------------------------------------------------
-    fdata = spectrum(sspec, fc)
+    # fdata_in is what is handed to the object; fdata its exact complex128
+    # value, which all references below are computed from.
+    fdata_in, how = hand_over(spectrum(sspec, fc), sspec)
+    fdata = np.array(fdata_in, dtype=np.complex128)
     scale = float(np.max(np.abs(fdata)))
-    keep = fdata.copy()
+    keep = fdata_in.copy()
+    off = offset(X)
+    pre = sspec.get('pre', 'none') if ENABLE_PRE_CALL else 'none'
     try:
-        out = F.interpolate(fdata)
+        if pre != 'none':
+            # another spectrum goes through the same object first: nothing of
+            # it may survive in the results for fdata
+            other, _ = hand_over(spectrum(
+                {'kind': sspec.get('pre_kind', 'random'),
+                 'lgamp': sspec.get('pre_lgamp', 0.0),
+                 'seed': (int(sspec['seed']) + 1) % 2**32}, fc), sspec)
+            if pre == 'interpolate':
+                F.interpolate(other)
+            else:
+                F.freq2time(other, off)
+        out = F.interpolate(fdata_in)
     except Exception as e:
         if same_size_differs:
             raise Violation(
@@ -518,8 +692,9 @@ def _oracle(F, X, sspec, rec, allowed_signals=None, mismatch_sig=None):
                 f"but other values; {fc.size} computed vs {int(itp.sum())} "
                 "in-band required frequencies)", det) from e
         raise
-    if not _eq(fdata, keep):
+    if not _same_buffer(fdata_in, keep):
         raise Violation("interpolate:modifies_input", "fdata changed", det)
+    rec.cls(f"fdata_as={how}", f"pre_call={pre}")
     out = np.asarray(out)
     if out.shape != req.shape or out.dtype != np.complex128:
         raise Violation("interpolate:shape_or_dtype",
@@ -575,6 +750,9 @@ def _oracle(F, X, sspec, rec, allowed_signals=None, mismatch_sig=None):
                 rec.cls('inband=beyond_computed_range')
             if np.any(~hit):
                 rec.cls('inband=interpolated')
+            if hit.any() and np.any(~hit) and \
+                    not np.all(np.isin(fc, req)) and np.any(np.isin(fc, req)):
+                rec.cls('computed=some_on_required_some_off')
         else:
             rec.cls('inband=empty')
         if problem is not None:
@@ -622,6 +800,22 @@ def _oracle(F, X, sspec, rec, allowed_signals=None, mismatch_sig=None):
                 f"at {req[ext][j]!r} Hz |imag| = {abs(ei[j])!r}; lowest "
                 f"computed frequency {fc[0]!r} Hz has {im0!r}: no decay "
                 "towards zero frequency", det)
+        if ENABLE_DOC_PCHIP:
+            # the mechanism the class docstring names: PCHIP through
+            # (1e-100 Hz, re0 + 0j) and ALL computed points
+            want = PchipInterpolator(np.r_[1e-100, fc],
+                                     np.r_[0.0, fdata.imag])(req[ext])
+            d = np.abs(ei - want)
+            tol = 1e-9*abs(im0) + tiny
+            _margin('extrap_documented_pchip', np.max(d)/tol)
+            if np.any(d > tol):
+                j = int(np.argmax(d))
+                raise Violation(
+                    "extrapolation:not_documented_pchip",
+                    f"at {req[ext][j]!r} Hz imaginary part {ei[j]!r}; PCHIP "
+                    f"through (1e-100 Hz, 0) and the {fc.size} computed "
+                    f"points gives {want[j]!r} (lowest computed {im0!r})",
+                    det)
 
     # ---- C. freq2time ----------------------------------------------------
     # The result must be what the reference transform returns for the filled
@@ -632,7 +826,6 @@ def _oracle(F, X, sspec, rec, allowed_signals=None, mismatch_sig=None):
     # difference alone is not a violation: the hand-over is recorded and a
     # difference beyond 1e-10 counts only if the recorded arguments are not
     # equivalent to the input-derived ones.
-    off = X['off']
     orig_tem = empymod.model.tem
     calls = []
 
@@ -642,9 +835,12 @@ def _oracle(F, X, sspec, rec, allowed_signals=None, mismatch_sig=None):
         return ret
     empymod.model.tem = _recording_tem
     try:
-        td = np.asarray(F.freq2time(fdata, off))
+        td = np.asarray(F.freq2time(fdata_in, off))
     finally:
         empymod.model.tem = orig_tem
+    if not _same_buffer(fdata_in, keep):
+        raise Violation("freq2time:modifies_input", "fdata changed", det)
+    rec.cls(f"off_as={X.get('off_as', 'float')}")
     sigs = [signal] if allowed_signals is None else allowed_signals
     cands = []
     for variant in sigs:
@@ -718,6 +914,50 @@ def _oracle(F, X, sspec, rec, allowed_signals=None, mismatch_sig=None):
     return ext.any() and itp.any() and abv.any()
 
 
+def _same_buffer(a, keep):
+    """a (possibly a strided view) still holds the values of its copy, and
+    so does the memory between its elements."""
+    if a.dtype != keep.dtype or not _eq(a, keep):
+        return False
+    base = a.base
+    if isinstance(base, np.ndarray) and base.size == 2*a.size and \
+            a.strides[0] == 2*a.itemsize:
+        return bool(np.all(np.isnan(base[1::2])))
+    return True
+
+
+def hand_over(fdata, sspec):
+    """-> (array handed to the object, label).  The exact complex128 value of
+    the returned array is the spectrum the references are computed from."""
+    how = sspec.get('as', 'c128') if ENABLE_FDATA_AS else 'c128'
+    if how == 'c64':
+        return fdata.astype(np.complex64), how
+    if how == 'f64_real':
+        return fdata.real.copy(), how
+    if how == 'strided':                # NaN between the elements
+        buf = np.full(2*fdata.size, np.nan + 1j*np.nan)
+        buf[::2] = fdata
+        return buf[::2], how
+    if how == 'readonly':
+        out = fdata.copy()
+        out.flags.writeable = False
+        return out, how
+    return fdata, 'c128'
+
+
+def offset(X):
+    off, how = X['off'], X.get('off_as', 'float')
+    if how == 'int':
+        return max(1, int(round(off)))
+    if how == 'f32':
+        return np.float32(off)
+    if how == 'arr1':
+        return np.array([off])
+    if how == 'list1':
+        return [off]
+    return off
+
+
 def _handover_diff(got, want, scale):
     """Names of the arguments of the recorded transform call that are not
     equivalent to the input-derived ones."""
@@ -757,7 +997,7 @@ def _handover_diff(got, want, scale):
 def _variant_ftarg(time, X, variant):
     """ftarg of the other (sine <-> cosine) transform variant."""
     ftarg = dict(X['ftarg'] or {})
-    ft = 'dlf' if X['ft'] is None else X['ft']
+    ft = 'dlf' if X['ft'] is None else X['ft'].lower()
     if ft == 'dlf':
         ftarg['kind'] = variant            # 'sin' / 'cos'
         return own_check_time(time, 0, ft, ftarg)[3]
@@ -782,6 +1022,44 @@ def _valid_combo(args):
 
 
 # ----------------------------------------------------------------- cases
+def _provenance(F, cfg, rec):
+    """The object the oracle looks at: as built, a deep copy, or unpickled."""
+    prov = cfg.get('prov', 'fresh') if ENABLE_PROVENANCE else 'fresh'
+    if prov == 'deepcopy':
+        F = copy.deepcopy(F)
+    elif prov == 'pickle':
+        F = pickle.loads(pickle.dumps(F))
+    rec.cls(f'prov={prov}')
+    return F
+
+
+def _check_coarse_model(F, m_ev, m_inp, where, ops, X):
+    """Documented bookkeeping of the two mutually exclusive inputs."""
+    if (F.every_x_freq != m_ev) or ((F.input_freq is None) != (m_inp is None)):
+        raise Violation(
+            SIG_COARSE,
+            f"after {where}: every_x_freq={F.every_x_freq!r}, input_freq is "
+            f"{'None' if F.input_freq is None else 'set'}; expected "
+            f"every_x_freq={m_ev!r}, input_freq "
+            f"{'None' if m_inp is None else 'set'}",
+            {'ops': ops, 'inputs': _describe(X)})
+
+
+def _touch(F):
+    """USE the object in its current (possibly transient) state: read every
+    public attribute and fill a spectrum.  Nothing is demanded of transient
+    states (they may legitimately hold fewer than four computed points, an
+    empty band, ...); whatever is computed here must not survive into the
+    final state."""
+    try:
+        for name in PROPS:
+            getattr(F, name)
+        n = int(np.asarray(F.freq_compute).size)
+        F.interpolate((np.arange(n) + 1.0)*(1.0 - 0.5j))
+    except Exception:
+        pass
+
+
 def case_fill(spec, rec):
     import emg3d
     X = realise(spec)
@@ -790,12 +1068,20 @@ def case_fill(spec, rec):
         kw['input_freq'] = X['inp']
     if X['every'] is not None:
         kw['every_x_freq'] = X['every']
-    with warnings.catch_warnings():
+    if X['ctor_every'] is not None:
+        kw['every_x_freq'] = X['ctor_every']
+        rec.cls('ctor=input_freq_and_every_x_freq')
+    verb = spec.get('verb', 0)
+    with warnings.catch_warnings(), contextlib.redirect_stdout(io.StringIO()):
         warnings.simplefilter('ignore')
         F = emg3d.time.Fourier(X['time'], X['fmin'], X['fmax'],
-                               signal=X['signal'], verb=0, **kw)
+                               signal=X['signal'], verb=verb, **kw)
+        if X['ctor_every'] is not None:
+            _check_coarse_model(F, None, X['inp'], 'the constructor', [], X)
+        F = _provenance(F, spec, rec)
         nontrivial = _oracle(F, X, spec['spectrum'], rec)
     _ft_classes(rec, spec, X)
+    rec.cls(f'verb={verb}')
     if nontrivial:
         rec.nt([spec['time'], spec['signal'], spec['ft'], spec['coarse'],
                 spec['band']])
@@ -807,6 +1093,9 @@ def case_fill(spec, rec):
 def case_setters(spec, rec):
     import emg3d
     cfg, ini, ops = spec['final'], spec['init'], list(spec['ops'])
+    mid = spec.get('mid') or [None]*len(ops)
+    touch = spec.get('touch') or [False]*(len(ops) + 1)
+    none_which = spec.get('none_which', 'set')
     X = realise(cfg)
     # initial values of the attributes that are later set through setters
     t0 = build_time(ini['time'])
@@ -814,6 +1103,8 @@ def case_setters(spec, rec):
     args = {'time': X['time'], 'fmin': X['fmin'], 'fmax': X['fmax'],
             'signal': X['signal'], 'ft': X['ft'], 'ftarg': X['ftarg']}
     m_inp, m_ev = X['inp'], X['every']          # model of the coarse inputs
+    if X['ctor_every'] is not None:
+        m_ev = X['ctor_every']
     if 'time' in ops:
         args['time'] = t0
     if 'signal' in ops:
@@ -826,9 +1117,9 @@ def case_setters(spec, rec):
         args['fmax'] = args['fmin']*ini['fmax_fac']
     if 'coarse' in ops:
         m_inp = m_ev = None
-        if ini['coarse'] == 'every':
+        if ini['coarse'] in ('every', 'both'):
             m_ev = ini['every']
-        elif ini['coarse'] == 'input':
+        if ini['coarse'] in ('input', 'both'):
             m_inp = np.logspace(-2, 1, ini['n_input'])
     # the initial combination must itself be a valid input; fall back to
     # plain alternatives if the independently drawn pieces do not fit
@@ -846,23 +1137,71 @@ def case_setters(spec, rec):
         kw['input_freq'] = m_inp
     if m_ev is not None:
         kw['every_x_freq'] = m_ev
-    with warnings.catch_warnings():
+    if m_inp is not None and m_ev is not None:
+        rec.cls('ctor=input_freq_and_every_x_freq')
+        m_ev = None                 # documented: input_freq is kept
+    last = {op: i for i, op in enumerate(ops)}
+    state = dict(args)              # model of what check_time depends on
+    ever_nonzero = state['signal'] != 0
+    before_last_signal = state['signal']
+    band = [args['fmin'], args['fmax']]
+    with warnings.catch_warnings(), contextlib.redirect_stdout(io.StringIO()):
         warnings.simplefilter('ignore')
         F = emg3d.time.Fourier(args['time'], args['fmin'], args['fmax'],
                                signal=args['signal'], verb=spec['verb'], **kw)
-        for op in ops:
-            if op == 'time':
-                F.time = X['time']
-            elif op == 'signal':
-                F.signal = X['signal']
+        _check_coarse_model(F, m_ev, m_inp, 'the constructor', ops, X)
+        if touch[0]:
+            _touch(F)
+        for i, op in enumerate(ops):
+            final = last[op] == i
+            m = None if final else mid[i]
+            if not final and m is None:
+                raise Inconclusive("repeated setter without a transient value")
+            if op in ('time', 'signal', 'ft'):
+                new = dict(state)
+                if op == 'time':
+                    new['time'] = X['time'] if final else build_time(m['time'])
+                elif op == 'signal':
+                    new['signal'] = X['signal'] if final else m['signal']
+                elif final:
+                    new['ft'] = 'dlf' if X['ft'] is None else X['ft']
+                    new['ftarg'] = {} if X['ftarg'] is None else X['ftarg']
+                else:
+                    fs = dict(m['ft'])
+                    if fs['mode'] == 'standard' and state['time'].size > 1:
+                        fs['mode'], fs['ppd'] = 'lagged', -1
+                    ft_, fa_ = build_ft(fs)
+                    new['ft'] = 'dlf' if ft_ is None else ft_
+                    new['ftarg'] = {} if fa_ is None else fa_
+                if not _valid_combo(new):
+                    # emg3d may legitimately refuse this transient combination
+                    if final:
+                        raise Inconclusive("final setter value does not fit "
+                                           "the transient settings")
+                    rec.cls('transient=skipped_invalid_combination')
+                    continue
+                if op == 'time':
+                    F.time = new['time']
+                elif op == 'signal':
+                    if final:
+                        before_last_signal = state['signal']
+                    F.signal = new['signal']
+                    ever_nonzero = ever_nonzero or new['signal'] != 0
+                else:
+                    F.fourier_arguments(new['ft'], new['ftarg'])
+                state = new
             elif op == 'fmin':
-                F.fmin = X['fmin']
+                band[0] = X['fmin'] if final else m['v']
+                F.fmin = band[0]
             elif op == 'fmax':
-                F.fmax = X['fmax']
-            elif op == 'ft':
-                F.fourier_arguments('dlf' if X['ft'] is None else X['ft'],
-                                    {} if X['ftarg'] is None else X['ftarg'])
-            elif op == 'coarse':
+                band[1] = X['fmax'] if final else m['v']
+                F.fmax = band[1]
+            elif op == 'coarse' and final:
+                if X['ctor_every'] is not None:
+                    F.every_x_freq = X['ctor_every']    # erases input_freq
+                    m_ev, m_inp = X['ctor_every'], None
+                    _check_coarse_model(F, m_ev, m_inp, f'op {i} (every)',
+                                        ops, X)
                 if X['cmode'] == 'every':
                     F.every_x_freq = X['every']     # erases input_freq
                     m_ev, m_inp = X['every'], None
@@ -870,37 +1209,63 @@ def case_setters(spec, rec):
                     F.input_freq = X['inp']         # erases every_x_freq
                     m_inp, m_ev = X['inp'], None
                 else:
-                    if m_ev is not None:
+                    if m_ev is not None or none_which == 'both':
                         F.every_x_freq = None
-                    if m_inp is not None:
+                    if m_inp is not None or none_which == 'both':
                         F.input_freq = None
                     m_inp = m_ev = None
-        # documented bookkeeping of the two mutually exclusive inputs
-        if (F.every_x_freq != m_ev) or (
-                (F.input_freq is None) != (m_inp is None)):
-            raise Violation(
-                "setters:coarse_inputs_not_mutually_exclusive",
-                f"every_x_freq={F.every_x_freq!r}, input_freq is "
-                f"{'None' if F.input_freq is None else 'set'}; expected "
-                f"every_x_freq={m_ev!r}, input_freq "
-                f"{'None' if m_inp is None else 'set'}",
-                {'ops': ops, 'inputs': _describe(X)})
+            elif op == 'coarse':
+                if m['coarse'] == 'every':
+                    F.every_x_freq = m['every']
+                    m_ev, m_inp = m['every'], None
+                elif m['coarse'] == 'input':
+                    m_inp, m_ev = np.logspace(-2, 1, m['n_input']), None
+                    F.input_freq = m_inp
+                elif m['which'] == 'other':
+                    # None assigned to the one that is not set: the partner
+                    # must survive
+                    if m_ev is not None:
+                        F.input_freq = None
+                    else:
+                        F.every_x_freq = None
+                    if m_ev is not None or m_inp is not None:
+                        rec.cls('coarse_none=assigned_to_unset_partner')
+                else:
+                    if m_ev is not None or m['which'] == 'both':
+                        F.every_x_freq = None
+                    if m_inp is not None or m['which'] == 'both':
+                        F.input_freq = None
+                    m_inp = m_ev = None
+            if op == 'coarse':
+                _check_coarse_model(F, m_ev, m_inp, f'op {i} (coarse)', ops, X)
+            if not final:
+                rec.cls(f'transient_op={op}')
+            if band[0] > band[1]:
+                rec.cls('transient=fmin_above_fmax')
+            if touch[i + 1]:
+                _touch(F)
+        _check_coarse_model(F, m_ev, m_inp, 'all setters', ops, X)
         # which transform variants are acceptable / which bucket on mismatch
         allowed, sig = None, None
-        changed = 'signal' in ops and ini['signal'] != X['signal']
-        if changed:
-            later = ops[ops.index('signal')+1:]
+        if 'signal' in ops and before_last_signal != X['signal']:
+            later = ops[last['signal']+1:]
             if 'time' not in later and 'ft' not in later:
                 sig = SIG_SIGNAL_SETTER
                 rec.cls('signal_setter=last_word')
             else:
                 rec.cls('signal_setter=rechecked_later')
-            if X['signal'] == 0:
-                allowed = ['sin', 'cos']
+        # a DLF 'kind' chosen for an earlier non-zero signal legitimately
+        # persists once the signal is set to 0 (empymod: user-given kind)
+        if 'signal' in ops and X['signal'] == 0 and ever_nonzero:
+            allowed = ['sin', 'cos']
+        F = _provenance(F, cfg, rec)
         nontrivial = _oracle(F, X, cfg['spectrum'], rec,
                              allowed_signals=allowed, mismatch_sig=sig)
     _ft_classes(rec, cfg, X)
-    rec.cls('ops=' + str(len(ops)), *[f"op={o}" for o in ops])
+    rec.cls('ops=' + str(len(ops)), *[f"op={o}" for o in sorted(set(ops))])
+    rec.cls('ops_repeated=' + ('yes' if len(set(ops)) < len(ops) else 'no'),
+            f"touched={'no' if not any(touch) else 'yes'}",
+            f"verb={spec['verb']}")
     if nontrivial:
         rec.nt([cfg['time'], cfg['signal'], cfg['ft'], cfg['coarse'],
                 cfg['band'], ops, ini['signal']])
